@@ -40,9 +40,17 @@ impl Welzl {
 
 impl BoundingSphereSolver for Welzl {
     fn bounding_sphere(points: &[DVec3]) -> Sphere {
+        // Work in coordinates relative to the first point: the tolerance of
+        // `Sphere::contains` is relative to the radius, so for a set that is small
+        // compared to its distance from the origin the rounding of the absolute
+        // coordinates would otherwise push points that lie on the sphere onto the
+        // boundary until it degenerates.
+        let origin = points.first().copied().unwrap_or(DVec3::ZERO);
         let mut boundary = vec![];
-        let mut points = points.to_vec();
-        Self::bounding_sphere_recursive(&mut points, &mut boundary)
+        let mut points = points.iter().map(|p| *p - origin).collect::<Vec<_>>();
+        let mut sphere = Self::bounding_sphere_recursive(&mut points, &mut boundary);
+        sphere.center += origin;
+        sphere
     }
 
     fn bounding_sphere_of_spheres(_spheres: &[Sphere]) -> Sphere {
